@@ -112,20 +112,20 @@ Definition cr_new (attr : bool) (addnl : option N) : crt :=
 
 (* ------------------------------------------------------------------ tokenizer configuration *)
 Record cfg (S : Type) := mkcfg {
-  st : S; reconsume : bool; cur : N; ignore_lf : bool; discard_bom : bool; at_eof : bool;
+  st : S; reconsume : bool; cur : N; ignore_lf : bool; discard_bom : bool;
   temp_buf : str; tag_kind : tagkind; tag_name : str; tag_self : bool; tag_dup : bool;
   tag_attrs : list (str * str); attr_name : str; attr_value : str; comment : str;
   dt_name : option str; dt_pub : option str; dt_sys : option str; dt_quirks : bool;
   pi_target : str; pi_data : str;
   last_start : option str; cref : option crt; line : N }.
 Arguments mkcfg {S}. Arguments st {S}. Arguments reconsume {S}. Arguments cur {S}. Arguments ignore_lf {S}.
-Arguments discard_bom {S}. Arguments at_eof {S}. Arguments temp_buf {S}. Arguments tag_kind {S}.
+Arguments discard_bom {S}. Arguments temp_buf {S}. Arguments tag_kind {S}.
 Arguments tag_name {S}. Arguments tag_self {S}. Arguments tag_dup {S}. Arguments tag_attrs {S}.
 Arguments attr_name {S}. Arguments attr_value {S}. Arguments comment {S}. Arguments dt_name {S}.
 Arguments dt_pub {S}. Arguments dt_sys {S}. Arguments dt_quirks {S}. Arguments pi_target {S}.
 Arguments pi_data {S}. Arguments last_start {S}. Arguments cref {S}. Arguments line {S}.
 #[export] Instance eta_cfg {S} : Settable (cfg S) :=
-  settable! (@mkcfg S) <st; reconsume; cur; ignore_lf; discard_bom; at_eof; temp_buf; tag_kind; tag_name; tag_self;
+  settable! (@mkcfg S) <st; reconsume; cur; ignore_lf; discard_bom; temp_buf; tag_kind; tag_name; tag_self;
     tag_dup; tag_attrs; attr_name; attr_value; comment; dt_name; dt_pub; dt_sys; dt_quirks; pi_target; pi_data;
     last_start; cref; line>.
 
@@ -272,29 +272,30 @@ Definition pop_except_from (set : list N) (use_simd : bool) (m : M) : popres * M
         end
     end.
 
-Definition eat_body (pat : str) (exact_cmp : bool) (m1 : M) : option bool * M :=
+(* [at_eof]: Tokenizer::end() has been called (no more input will arrive: look-ahead must decide now) *)
+Definition eat_body (at_eof : bool) (pat : str) (exact_cmp : bool) (m1 : M) : option bool * M :=
   let m2 := upd (fun x => x <| temp_buf := [] |>) (unconsume (temp_buf (mc m1)) m1) in
   match Qeat (negb exact_cmp) pat (mq m2) with
   | EatTrue => (Some true, took (lenN pat) (m2 <| mq := Qdrop (length pat) (mq m2) |>))
   | EatFalse => (Some false, m2)
   | EatNone =>
-    if at_eof (mc m2) then (Some false, m2)
+    if at_eof then (Some false, m2)
     else (None, took (lenN (Qflat (mq m2))) (upd (fun x => x <| temp_buf := Qflat (mq m2) |>) (m2 <| mq := Qemp |>)))
   end.
 
-Definition eat (pat : str) (exact_cmp : bool) (m : M) : option bool * M :=
+Definition eat (at_eof : bool) (pat : str) (exact_cmp : bool) (m : M) : option bool * M :=
   if ignore_lf (mc m) then
     (* the line feed of a CR LF pair may only arrive with the next chunk *)
     match peek m with
-    | None => if at_eof (mc m) then eat_body pat exact_cmp (upd (fun x => x <| ignore_lf := false |>) m) else (None, m)
+    | None => if at_eof then eat_body at_eof pat exact_cmp (upd (fun x => x <| ignore_lf := false |>) m) else (None, m)
     | Some c =>
       let m' := if c =? LF then
                   (if f_html fl then discard_char m
                    else match Qnext (mq m) with Some (_, q') => took 1 (m <| mq := q' |>) | None => m end)
                 else m in
-      eat_body pat exact_cmp (upd (fun x => x <| ignore_lf := false |>) m')
+      eat_body at_eof pat exact_cmp (upd (fun x => x <| ignore_lf := false |>) m')
     end
-  else eat_body pat exact_cmp m.
+  else eat_body at_eof pat exact_cmp m.
 
 (* ---- attributes and tags *)
 (* xml5ever qname.rs: index of the prefix colon, if the name has exactly the shape p:l *)
@@ -465,26 +466,26 @@ Definition do_term (t : term S) (m : M) : M * sres :=
   | Eof => (emit TEof m, SSuspend)
   end.
 
-Fixpoint exec (b : body S) (c : N) (run : list N) (m : M) : M * sres :=
+Fixpoint exec (at_eof : bool) (b : body S) (c : N) (run : list N) (m : M) : M * sres :=
   match b with
   | BRead RGet k =>
-    match get_char m with (None, m') => (m', SSuspend) | (Some c', m') => exec k c' run m' end
+    match get_char m with (None, m') => (m', SSuspend) | (Some c', m') => exec at_eof k c' run m' end
   | BRead RPeek k =>
-    match peek m with None => (m, SSuspend) | Some c' => exec k c' run m end
+    match peek m with None => (m, SSuspend) | Some c' => exec at_eof k c' run m end
   | BPop set use_simd krun kchar =>
     match pop_except_from set use_simd m with
     | (PopNone, m') => (m', SSuspend)
-    | (PopChar c', m') => exec kchar c' run m'
-    | (PopRun r, m') => exec krun c r m'
+    | (PopChar c', m') => exec at_eof kchar c' run m'
+    | (PopRun r, m') => exec at_eof krun c r m'
     end
   | BEat pat ex yes no =>
-    match eat pat ex m with
+    match eat at_eof pat ex m with
     | (None, m') => (m', SSuspend)
-    | (Some true, m') => exec yes c run m'
-    | (Some false, m') => exec no c run m'
+    | (Some true, m') => exec at_eof yes c run m'
+    | (Some false, m') => exec at_eof no c run m'
     end
-  | BIf k yes no => if ceval_cond k c m then exec yes c run m else exec no c run m
-  | BCmd k rest => exec rest c run (do_cmd k c run m)
+  | BIf k yes no => if ceval_cond k c m then exec at_eof yes c run m else exec at_eof no c run m
+  | BCmd k rest => exec at_eof rest c run (do_cmd k c run m)
   | BEnd t => do_term t m
   end.
 
@@ -648,7 +649,7 @@ Definition cr_eof (cr : crt) (m : M) : list N * M :=
   end.
 
 (* ---- step / run / feed / end *)
-Definition step (m : M) : M * sres :=
+Definition step (at_eof : bool) (m : M) : M * sres :=
   match cref (mc m) with
   | Some cr =>
     match cr_step cr m with
@@ -658,15 +659,15 @@ Definition step (m : M) : M * sres :=
       let '(m'', bad) := process_char_ref chars m' in
       (upd (fun x => x <| cref := None |>) m'', if bad then SPanic 1 else SContinue)
     end
-  | None => exec (t_step tb (st (mc m))) 0 [] m
+  | None => exec at_eof (t_step tb (st (mc m))) 0 [] m
   end.
 
-Fixpoint run (fuel : nat) (m : M) : M * sres :=
+Fixpoint run (at_eof : bool) (fuel : nat) (m : M) : M * sres :=
   match fuel with
   | O => (m, SPanic 98)
   | Datatypes.S f =>
-    match step m with
-    | (m', SContinue) => run f m'
+    match step at_eof m with
+    | (m', SContinue) => run at_eof f m'
     | r => r
     end
   end.
@@ -684,14 +685,14 @@ Definition feed (fuel : nat) (m : M) : M * sres :=
                 | None => m
                 end
               else m in
-    run fuel m1
+    run false fuel m1
   end.
 
 Fixpoint eof_loop (fuel : nat) (m : M) : M * sres :=
   match fuel with
   | O => (m, SPanic 97)
   | Datatypes.S f =>
-    match exec (t_eof tb (st (mc m))) 0 [] m with
+    match exec true (t_eof tb (st (mc m))) 0 [] m with
     | (m', SContinue) => eof_loop f m'
     | (m', SSuspend) => (m', SSuspend)
     | (m', SPanic n) => (m', SPanic n)
@@ -710,8 +711,8 @@ Definition tok_end (fuel : nat) (m : M) : M * sres :=
       process_char_ref chars m'
     end in
   if bad then (m1, SPanic 1) else
-  let m2 := upd (fun x => x <| at_eof := true |>) m1 in
-  match run fuel m2 with
+  let m2 := m1 in
+  match run true fuel m2 with
   | (m3, SSuspend) =>
     match Qpeek (mq m3) with
     | None => eof_loop fuel m3
@@ -763,7 +764,7 @@ Definition fq_run1 (stop : N -> bool) (q : list N) : list N * list N :=
 Definition drive_flat {S} := @drive S (list N) [] fq_next fq_peek (@app N) (@app N) (fun q => q) fq_run1.
 
 Definition init_cfg {S} (s0 : S) (last : option str) (bom : bool) : cfg S :=
-  mkcfg s0 false 0 false bom false [] TStartTag [] false false [] [] [] [] None None None false [] [] last None 1.
+  mkcfg s0 false 0 false bom [] TStartTag [] false false [] [] [] [] None None None false [] [] last None 1.
 
 (* ------------------------------------------------------------------ the two flavours *)
 Definition html_flavour : flavour hstate := {|
